@@ -16,7 +16,7 @@ LEVEL = "exploration"
 ENGINE = "simhist"
 TIERS = {
     "quick": {"runs": 150000, "budget_s": 70, "chunk": 500},
-    "thorough": {"runs": 1200000, "budget_s": 1500, "chunk": 600},
+    "thorough": {"runs": 6000000, "budget_s": 1500, "chunk": 2000},
 }
 KINDS = ["copy", "set_origin", "set_sampling", "set_units", "set_name", "set_array", "pad", "crop",
          "bin", "resample", "getitem", "rejected"]
